@@ -70,6 +70,10 @@ type c20Setting struct {
 	skipDesc string
 	interval time.Duration
 	hasIntvl bool
+	// viaLink: the configured path is a symbolic link to the data file; rotation re-points the link (the way mounted
+	// Secrets and ConfigMaps are updated) instead of rewriting a file in place
+	viaLink bool
+	linkGen int
 
 	cfg     *oidcv1.OIDCConfig
 	configs []*tls.Config // every pointer LoadTLSConfig returned for this setting
@@ -96,6 +100,22 @@ func boolStrRef(v *structpb.Value) bool {
 		return b.BoolValue
 	}
 	return false
+}
+
+// put makes the configured path hold content: rewritten in place, or - via a link - written to a new data file to
+// which the link is then re-pointed atomically.
+func (s *c20Setting) put(content []byte) {
+	if !s.viaLink {
+		_ = os.WriteFile(s.file, content, 0o644)
+		return
+	}
+	s.linkGen++
+	data := fmt.Sprintf("%s.data-%d", s.file, s.linkGen)
+	_ = os.WriteFile(data, content, 0o644)
+	tmp := s.file + ".tmp-link"
+	_ = os.Remove(tmp)
+	_ = os.Symlink(data, tmp)
+	_ = os.Rename(tmp, s.file)
 }
 
 func (s *c20Setting) build() {
@@ -174,12 +194,16 @@ func c20Prop(c *sim.Case) {
 		}
 		if s.caKind == 2 {
 			s.file = filepath.Join(e.dir, fmt.Sprintf("ca-%d.pem", atomic.AddInt64(&c20File, 1)))
-			_ = os.WriteFile(s.file, e.cas[s.caIdx].PEM, 0o644)
+			s.viaLink = sim.Weighted(c, "file-via-symlink", 2, 1) == 1
+			s.put(e.cas[s.caIdx].PEM)
 			s.loadCA = s.caIdx
+			if s.viaLink {
+				c.Class("ca-file-via-symlink")
+			}
 			if sim.Weighted(c, "file-empty-at-load", 4, 1) == 1 {
 				// the file exists but holds nothing yet (a volume that is populated later): no CA of its own until a
 				// later content is picked up - and, a CA being configured, skip_verify_peer_cert stays ignored
-				_ = os.WriteFile(s.file, nil, 0o644)
+				s.put(nil)
 				s.loadCA = -3
 				c.Class("ca-file-empty-at-load")
 			}
@@ -391,15 +415,15 @@ func c20Prop(c *sim.Case) {
 			switch k {
 			case 0:
 				w.ca = sim.Pick(c, "newca", 3)
-				_ = os.WriteFile(s.file, e.cas[w.ca].PEM, 0o644)
+				s.put(e.cas[w.ca].PEM)
 				rotated = true
 			case 1:
 				w.ca = -2
 				b, _ := os.ReadFile(s.file)
-				_ = os.WriteFile(s.file, b, 0o644)
+				s.put(b)
 			case 2:
 				w.ca = -1
-				_ = os.WriteFile(s.file, []byte("-----BEGIN GARBAGE-----\nnot a certificate\n"), 0o644)
+				s.put([]byte("-----BEGIN GARBAGE-----\nnot a certificate\n"))
 			}
 			w.at = time.Now()
 			s.writes = append(s.writes, w)
